@@ -3,7 +3,7 @@
    src/keyvalue.c, src/burl.c, src/base64.c, src/mod_rewrite.c by Gen/GenMap.v (flag values, base64
    tables, modifier keyword -> flag assignments as written in the source, loop limit) and by
    differential correspondence (harness/map_h.c with real PCRE2 <-> extracted model). *)
-From LV Require Import Base.Bytes Gen.GenBurl Gen.GenMap Url.UrlModel Map.MapModel Map.MapProofs.
+From LV Require Import Base.Bytes Gen.GenBurl Gen.GenMap Url.UrlModel Map.MapModel Map.MapProofs Url.UrlModel Roots.RootsModel Roots.RootsProofs.
 Local Open Scope N_scope.
 
 (* each ${...:} modifier keyword sets the flag it is named after (regenerated from keyvalue.c on every run) *)
@@ -74,6 +74,22 @@ Theorem once_applies_once : forall rep mk tg rules h1 t1 rules2 mk2,
     (RwGoOn, {| h_count := h_count h1 + 1; h_rewritten := h_rewritten h1; h_finished := h_finished h1 |}, t1).
 Proof. exact rewrite_once_applies_once. Qed.
 Print Assumptions once_applies_once.
+
+(* alias.url: the first key in configuration order that is a prefix of the URL path is the one applied, and it is replaced - exactly
+   it - by its target; everything after it is kept byte for byte (Roots/RootsModel.v is tied to mod_alias.c by roots_h.c and the server runs) *)
+Theorem alias_replaces_the_matched_prefix : forall al basedir pre uri p b,
+  length pre = (length basedir - (if ends_slash_b basedir then 1 else 0))%nat -> uri <> [] ->
+  alias_remap al basedir (pre ++ uri) = AliasTo p b ->
+  exists al1 k al2 rest, al = al1 ++ (k, b) :: al2 /\ (forall k' v', In (k', v') al1 -> prefixb k' uri = false)
+                         /\ uri = k ++ rest /\ p = b ++ rest.
+Proof. exact alias_replaces_exactly_the_matched_prefix. Qed.
+Print Assumptions alias_replaces_the_matched_prefix.
+
+(* simple-vhost: the document root is server-root ++ host name without port, joined with document-root *)
+Theorem vhost_root_is_composed_from_the_host : forall sroot h d,
+  svh_path sroot (Some h) (Some d) = path_join (sroot ++ cut_at colon h) d.
+Proof. intros. reflexivity. Qed.
+Print Assumptions vhost_root_is_composed_from_the_host.
 
 (* non-vacuity: a template using captures, a modifier chain and ${qsa} *)
 Example c20_nonvacuous :
